@@ -755,4 +755,140 @@ def relocate (base fpath : Str) : Str :=
   | some c => b ++ '/' :: norm.drop c
   | none => b ++ '/' :: norm.drop (norm.length - 1)
 
+/-! ### 7. Look-up sessions on one `BidsLayout` (state that survives between calls)
+
+A layout object and the file objects it hands out live through many look-ups.  The state that
+exists in the code: the layout's `_path` (constant) and `_nibabel` (set by the first
+`find_mri_derivative_files`); per file object `_meta` — the sidecar object kept after the first
+`get_meta()` — and that sidecar's `_data` (the json, parsed once).  `runStep` is the code as
+written (caches included); `pureAns` is what the property demands: the answer to a look-up is a
+function of the file asked about and of the files on disk, never of earlier look-ups. -/
+
+/-- the look-up functions of a layout (literal or source-spelled) -/
+structure Lookups where
+  parse : Str → Except String BidsEnt
+  metaFor : BidsEnt → Str
+  eventsFor : BidsEnt → Str
+  tableSibling : BidsEnt → Str → Str → Str
+  mriSibling : BidsEnt → Str → Str → Str
+  tableKey : BidsEnt → Str
+  derivativeFiles : List Str → Str → Str → Option (List Str) → Except String (List Str)
+
+/-- one call in a session; `h` is the index of a file object handed out earlier -/
+inductive Step where
+  | newFile (p : Str)                                        -- `BidsMriFile(p, layout, nib)`
+  | findFiles (derivative desc : Str) (tasks : Option (List Str))   -- `find_mri_derivative_files`
+  | findMeta (h : Nat)                                       -- `layout.find_meta_for(f).get_data()`
+  | getMeta (h : Nat)                                        -- `f.get_meta()` / `FmriprepRun.get_meta()`
+  | findEvents (h : Nat)                                     -- `find_events_for` / `get_events`
+  | tableSibling (h : Nat) (desc suffix : Str)               -- `get_table_sibling` / `get_confounds`
+  | mriSibling (h : Nat) (desc suffix : Str)                 -- `get_mri_sibling` / `get_mask` …
+  | tableKey (h : Nat)                                       -- `get_key`
+
+/-- a file object: its parsed entities and `_meta` (the sidecar's path and, once loaded, `_data`) -/
+structure FileObj (γ : Type) where
+  ent : BidsEnt
+  metaCache : Option (Str × Option γ) := none
+
+/-- layout attributes + the file objects handed out so far -/
+structure Session (γ : Type) where
+  nibabel : Bool := false
+  objs : List (FileObj γ) := []
+
+/-- what a call returns: a file (path, and what reading it gives; `none` = no such file), the
+    list of files found, or an exception -/
+inductive Ans (γ : Type) where
+  | file (path : Str) (data : Option γ)
+  | files (paths : List Str)
+  | err (e : String)
+  deriving DecidableEq
+
+variable {γ : Type}
+
+def withObj (s : Session γ) (h : Nat) (k : FileObj γ → Session γ × Ans γ) : Session γ × Ans γ :=
+  match s.objs[h]? with
+  | some o => k o
+  | none => (s, .err "IndexError")
+
+/-- `if self._meta is None: self._meta = self.layout.find_meta_for(self)` -/
+def sidecarOf (L : Lookups) (o : FileObj γ) : Str × Option γ :=
+  match o.metaCache with
+  | some m => m
+  | none => (L.metaFor o.ent, none)
+
+/-- `if self._data is None: self._data = json.load(open(self.fpath))` -/
+def loadData (fs : Str → Option γ) (m : Str × Option γ) : Option γ :=
+  match m.2 with
+  | some d => some d
+  | none => fs m.1
+
+/-- the code as written; `fs` = content of the files on disk -/
+def runStep (L : Lookups) (fs : Str → Option γ) (files : List Str) (s : Session γ) :
+    Step → Session γ × Ans γ
+  | .newFile p =>
+    match L.parse p with
+    | .ok e => ({ s with objs := s.objs ++ [{ ent := e }] }, .files [p])
+    | .error e => (s, .err e)
+  | .findFiles d desc tasks =>
+    match L.derivativeFiles files d desc tasks with
+    | .error e => (s, .err e)
+    | .ok ps =>
+      match ps.mapM L.parse with
+      | .ok es => ({ nibabel := true, objs := s.objs ++ es.map (fun e => { ent := e }) }, .files ps)
+      | .error e => (s, .err e)
+  | .findMeta h => withObj s h fun o => (s, .file (L.metaFor o.ent) (fs (L.metaFor o.ent)))
+  | .getMeta h => withObj s h fun o =>
+    let o' : FileObj γ := { o with metaCache := some ((sidecarOf L o).1, loadData fs (sidecarOf L o)) }
+    ({ s with objs := s.objs.set h o' }, .file (sidecarOf L o).1 (loadData fs (sidecarOf L o)))
+  | .findEvents h => withObj s h fun o => (s, .file (L.eventsFor o.ent) (fs (L.eventsFor o.ent)))
+  | .tableSibling h desc suffix => withObj s h fun o =>
+    (s, .file (L.tableSibling o.ent desc suffix) (fs (L.tableSibling o.ent desc suffix)))
+  | .mriSibling h desc suffix => withObj s h fun o =>
+    (s, .file (L.mriSibling o.ent desc suffix) (fs (L.mriSibling o.ent desc suffix)))
+  | .tableKey h => withObj s h fun o => (s, .file (L.tableKey o.ent) (fs (L.tableKey o.ent)))
+
+def runSession (L : Lookups) (fs : Str → Option γ) (files : List Str) :
+    Session γ → List Step → List (Ans γ)
+  | _, [] => []
+  | s, st :: r => (runStep L fs files s st).2 :: runSession L fs files (runStep L fs files s st).1 r
+
+/-- specification: the files handed out so far (entities only — no caches, no layout state) -/
+def tblStep (L : Lookups) (files : List Str) (tbl : List BidsEnt) : Step → List BidsEnt
+  | .newFile p => match L.parse p with | .ok e => tbl ++ [e] | .error _ => tbl
+  | .findFiles d desc tasks =>
+    match L.derivativeFiles files d desc tasks with
+    | .error _ => tbl
+    | .ok ps => match ps.mapM L.parse with | .ok es => tbl ++ es | .error _ => tbl
+  | _ => tbl
+
+def pureFile (fs : Str → Option γ) (tbl : List BidsEnt) (h : Nat) (look : BidsEnt → Str) : Ans γ :=
+  match tbl[h]? with
+  | some e => .file (look e) (fs (look e))
+  | none => .err "IndexError"
+
+/-- specification: the answer to one call, computed from the file asked about and the disk alone -/
+def pureAns (L : Lookups) (fs : Str → Option γ) (files : List Str) (tbl : List BidsEnt) :
+    Step → Ans γ
+  | .newFile p => match L.parse p with | .ok _ => .files [p] | .error e => .err e
+  | .findFiles d desc tasks =>
+    match L.derivativeFiles files d desc tasks with
+    | .error e => .err e
+    | .ok ps => match ps.mapM L.parse with | .ok _ => .files ps | .error e => .err e
+  | .findMeta h => pureFile fs tbl h L.metaFor
+  | .getMeta h => pureFile fs tbl h L.metaFor
+  | .findEvents h => pureFile fs tbl h L.eventsFor
+  | .tableSibling h desc suffix => pureFile fs tbl h (fun e => L.tableSibling e desc suffix)
+  | .mriSibling h desc suffix => pureFile fs tbl h (fun e => L.mriSibling e desc suffix)
+  | .tableKey h => pureFile fs tbl h L.tableKey
+
+def pureSession (L : Lookups) (fs : Str → Option γ) (files : List Str) :
+    List BidsEnt → List Step → List (Ans γ)
+  | _, [] => []
+  | tbl, st :: r => pureAns L fs files tbl st :: pureSession L fs files (tblStep L files tbl st) r
+
+/-- every cache holds what a fresh computation would give -/
+def Coherent (L : Lookups) (fs : Str → Option γ) (s : Session γ) : Prop :=
+  ∀ o ∈ s.objs, ∀ m, o.metaCache = some m →
+    m.1 = L.metaFor o.ent ∧ ∀ d, m.2 = some d → fs m.1 = some d
+
 end Rsa.Importers
